@@ -158,6 +158,61 @@ def _chunk(payload):
     return out
 
 
+FORKED = r"""
+import sys, os, time
+sys.path.insert(0, sys.argv[1])
+from aiuti.filelock import FileLock
+path, reent = sys.argv[2], sys.argv[3] == '1'
+lock = FileLock(path, reentrant=reent)
+lock.acquire()                       # the parent holds the lock ...
+r, w = os.pipe()
+pid = os.fork()
+if pid == 0:                         # ... a forked child inherits the object (and its descriptor)
+    os.close(r)
+    got = lock.acquire(timeout=0.3, poll_interval=0.01)
+    os.write(w, b'1' if got else b'0')
+    os._exit(0)
+os.close(w)
+ans = os.read(r, 1)
+os.waitpid(pid, 0)
+still = FileLock(path).acquire(blocking=False)    # an independent object confirms the parent really holds it
+print(ans.decode(), int(bool(still)))
+lock.release()
+"""
+
+
+def forked_child(out):
+    """A child forked while the parent holds the lock uses the inherited object: its acquire must not succeed while
+    the parent is still inside (the two are different processes)."""
+    for reent in (False, True):
+        work = F.mkworkdir()
+        case = {'part': 'forked-child', 'reentrant': reent}
+        mark(case)
+        out.evaluations += 1
+        try:
+            p = subprocess.run([sys.executable, '-c', FORKED, REPO, os.path.join(work, 'f.lock'), '1' if reent else '0'],
+                               stdin=subprocess.DEVNULL, stdout=subprocess.PIPE, stderr=subprocess.PIPE, text=True,
+                               timeout=60)
+            got = p.stdout.split()
+            if p.returncode != 0 or len(got) != 2:
+                out.concrete.append({'case': dict(case, stderr=p.stderr[-400:]), 'what': 'the forked-child scenario failed '
+                                     f'to run (exit {p.returncode})', 'signature': {'kind': 'exception', 'part': 'forked-child'}})
+                continue
+            if got[0] == '1' and got[1] == '0':
+                out.concrete.append({'case': case, 'what': 'a child process forked while its parent held the lock called '
+                                     'acquire() on the inherited FileLock object and was told True although the parent '
+                                     'still held the lock (an independent object could not get it): two holders',
+                                     'signature': {'kind': 'overlap', 'part': 'forked-child'}})
+            out.traces_validated += 1
+            out.fingerprints.add(fingerprint(case))
+            out.count('forked-child')
+        except subprocess.TimeoutExpired:
+            out.concrete.append({'case': case, 'what': 'the forked-child scenario hung', 'signature':
+                                 {'kind': 'hang', 'part': 'forked-child'}})
+        finally:
+            F.rmworkdir(work)
+
+
 def run(ctx):
     n = 2400 if ctx.quick else 120000
     k = 4 if ctx.quick else ctx.workers
@@ -165,6 +220,7 @@ def run(ctx):
     out = run_chunks(_chunk, [(ctx.seed * 1000 + j, per, 0) for j in range(k * 2)], k,
                      limit_s=90 if ctx.quick else 1500)
     soak(out, 4 if ctx.quick else 16, 1.0 if ctx.quick else 60.0, ctx.seed)
+    forked_child(out)
     return out
 
 
